@@ -102,7 +102,7 @@ def _parse_mod():
     return importlib.import_module("ckl.parser"), importlib.import_module("ckl.errors"), importlib.import_module("ckl.lexer")
 
 
-class _Alarm(Exception):
+class _Alarm(BaseException):
     pass
 
 
